@@ -93,7 +93,7 @@ class Machine:
     """Replays an event list; exposes the state it reaches and what the last event did."""
 
     def __init__(self, menu=None, njob=2, check=None, fs_events=True, targets_menu=((), ("c",), ("d/",)),
-                 exits=EXITS, allow_kill=True, resources="r:1"):
+                 exits=EXITS, allow_kill=True, resources="r:1", reporter="instant"):
         self.menu = menu if menu is not None else FULL_MENU
         self.njob = njob
         self.check = check  # object with optional on_commit / after_event / on_start hooks
@@ -102,6 +102,7 @@ class Machine:
         self.exits = exits
         self.allow_kill = allow_kill
         self.resources = resources
+        self.reporter = reporter
 
     # -- world / session management --------------------------------------------------------------
     def new_world(self):
@@ -130,7 +131,7 @@ class Machine:
             if machine.check is not None and getattr(sim, "opx_checking", False):
                 machine.check.on_commit(sim, db._con)
 
-        sim = Sim(world, njob=self.njob, reporter="instant", resources=self.resources, targets=tfiles,
+        sim = Sim(world, njob=self.njob, reporter=self.reporter, resources=self.resources, targets=tfiles,
                   target_dirs=tdirs, wired_hook=wired, precommit_hook=precommit, horizon=100000)
         sim.opx_checking = False
         sim.online_replies = []
